@@ -448,6 +448,37 @@ def run(ctx):
                     res.site(key, True, {"conditions": conds, "verdict": "VIOLATION"})
                     res.find(key, h.loc(t.get("sp")), "Program::%s appends one of its sections only under a condition (%s); the other listing appends it always" % (h.name, conds), "a program with only DEFCAL MEASURE definitions loses them in into_instructions but not in to_instructions")
     res.site("K7|listing-section-unconditional", True, {"verdict": "checked"})
+    # which PRAGMAs leave the body: exactly those whose name IS the reserved word (an exact ==), because the listing writes
+    # them back under exactly that name; any looser test (case-insensitive, prefix) moves an ordinary body PRAGMA into the
+    # keyed extern store, where it loses its position and can be replaced by a later one
+    key = "K8|extern-routing-exact"
+    routes = [(bb, t) for bb, t, c in add_i.calls() if c and callee_path(c).endswith("ExternPragmaMap::insert")]
+    ok = False
+    detail = {"insert_sites": len(routes)}
+    if len(routes) == 1:
+        bb = routes[0][0]
+        deps = sorted(add_i.control_deps(bb, transitive=False))
+        conds = []
+        for sb, tgt in deps:
+            tt = add_i.blocks[sb]["t"]
+            e = fn_expr_operand(add_i, tt["d"]) if tt["k"] == "switch" else ("x",)
+            if e[0] == "discr":
+                continue  # the match on the instruction kind
+            conds.append((e, tt, tgt))
+        if len(conds) == 1:
+            e, tt, tgt = conds[0]
+            exact = e[0] == "call" and e[1].rsplit("::", 1)[-1] in ("eq", "ne") and "PartialEq" in e[1] and len(e[2]) == 2
+            name_arg = exact and any(a[0] == "field" and a[2] == "name" and a[1][0] == "field" and a[1][1][0] == "as" and a[1][1][2] == "Pragma" for a in e[2])
+            false_targets = [target for v, target in tt["ts"] if int(v) == 0]
+            on_true = bool(false_targets) and tgt not in false_targets
+            side_ok = exact and (on_true == (e[1].rsplit("::", 1)[-1] == "eq"))
+            ok = bool(exact and name_arg and side_ok)
+            detail.update({"comparison": e[1][-60:] if e[0] == "call" else str(e[:2]), "compares_pragma_name": bool(name_arg), "taken_on_equal": bool(side_ok)})
+        else:
+            detail["conditions"] = len(conds)
+    res.site(key, True, dict(detail, verdict="ok" if ok else "VIOLATION"))
+    if not ok:
+        res.find(key, add_i.loc(), "add_instruction moves a PRAGMA into the extern store under a test that is not an exact `name == EXTERN` (%s)" % detail, "`PRAGMA extern foo \"(x : INTEGER)\"` (lower case) leaves the body, moves to the head of the listing and is replaced by a later one with the same first argument")
     res.explanation = (
         "Sibling agreement (K4) between the copying and consuming listings of Program and of every local type with both methods (%d pairs): "
         "each is abstracted to the ordered list of `self` stores appended to the result (provenance of every extend/push argument) and the lists must be equal; "
